@@ -27,6 +27,20 @@ def gen_table(rnd):
     return svcs
 
 
+def gen_small_table(rnd):
+    """degenerate tables: one or two services with a single binding each (no host / one host / a wildcard; mostly a non-root
+    prefix) - the shapes for which an implementation is tempted to short-cut the lookup"""
+    svcs = []
+    for i in range(rnd.choice([1, 1, 1, 2])):
+        svcs.append({"op": "deploy", "name": b"s%d" % i, "hosts": rnd.choice([[], [], [rnd.choice(HOSTS)]]),
+                     "prefixes": [rnd.choice(PREFIXES[1:] + [b"/"])], "tls": False, "tls_redirect": False,
+                     "strip": rnd.random() < 0.5, "cert": "none", "pages": "none", "topts": 0,
+                     "targets": [{"name": b"t%d-0:80" % i, "healthy": True}]})
+    if len(svcs) == 2 and svcs[0]["hosts"] == svcs[1]["hosts"] and svcs[0]["prefixes"] == svcs[1]["prefixes"]:
+        svcs.pop()
+    return svcs
+
+
 def run(tier, seed):
     prop = "C04"
     res = Result(prop, tier, seed)
@@ -38,8 +52,8 @@ def run(tier, seed):
         n_tables = 25 if tier == "quick" else 400
         n_req = 40 if tier == "quick" else 120
         hists, mats = [], []
-        for _ in range(n_tables):
-            tbl = gen_table(rnd)
+        for ti in range(n_tables):
+            tbl = gen_small_table(rnd) if ti % 4 == 3 else gen_table(rnd)
             reqs = [{"host": rnd.choice(REQ_HOSTS), "uri": rnd.choice(REQ_PATHS), "tls": False, "cookie": None,
                      "method": rnd.choice(["GET", "POST"])} for _ in range(n_req)]
             for variant in range(3):
@@ -71,7 +85,7 @@ def run(tier, seed):
                     statuses[str(r["status"])] = statuses.get(str(r["status"]), 0) + 1
         res.coverage.update({
             "evaluations": sum(statuses.values()), "distinct_nontrivial": len(hists),
-            "rule": "random tables of 1..6 services over colliding hosts (exact, wildcard, default, single-label, IPv6 literals) and "
+            "rule": "random tables of 1..6 services (every fourth table degenerate: one or two services with a single binding each) over colliding hosts (exact, wildcard, default, single-label, IPv6 literals) and "
                     "prefixes (look-alikes, trailing slashes, empty segments), each deployed in 3 command orders (shuffled; with "
                     "redeploys and a removed service; through a restart) and queried with a Host x path matrix through Router.ServeHTTP; "
                     "evaluations = route queries, distinct_nontrivial = histories",
